@@ -23,7 +23,7 @@ OutFile == IOEnv.FN_OUT
 ObsFile == IOEnv.FN_OBS
 
 \* ---- TE header domain
-QsQuick == {"absent", "0.5", "0", "bad"}
+QsQuick == {"absent", "0.5", "0.5009", "0", "bad"}
 Entries(qs) == [c : TC!Codings, q : qs]
 TEs(qs3, qs2) ==
     {<<>>} \cup {<<e>> : e \in Entries(TC!Qs)}
